@@ -91,6 +91,7 @@ type lsRow struct {
 }
 
 type lsPkg struct {
+	busy  bool
 	dir   string
 	files []*ast.File
 	names []string
@@ -98,11 +99,26 @@ type lsPkg struct {
 	tpkg  *types.Package
 }
 
-type lsFakeImporter struct{ m map[string]*types.Package }
+type lsFakeImporter struct {
+	m map[string]*types.Package
+	s *lsState
+}
+
+const lsModPrefix = "seata.apache.org/seata-go/"
 
 func (f *lsFakeImporter) Import(path string) (*types.Package, error) {
 	if p, ok := f.m[path]; ok {
 		return p, nil
+	}
+	// packages of the repository itself are type-checked from source (imports form a DAG), so
+	// that calls, fields and variables resolve across the client's packages
+	if f.s != nil && strings.HasPrefix(path, lsModPrefix) {
+		if pk := f.s.pkgs[strings.TrimPrefix(path, lsModPrefix)]; pk != nil {
+			if tp := f.s.checkPkg(f, pk); tp != nil {
+				f.m[path] = tp
+				return tp, nil
+			}
+		}
 	}
 	name := path
 	if i := strings.LastIndex(path, "/"); i >= 0 {
@@ -149,6 +165,28 @@ type lsState struct {
 	rows    []lsRow
 	fns     map[string]*lsFn
 	hcs     []lsHC
+	byT     map[*types.Package]*lsPkg
+	acqDirect map[string]map[string]bool // function -> resources (locks, pool) it acquires itself
+	callsAll  map[string]map[string]bool // function -> every resolvable callee on the same goroutine
+	oEdges    []lsEdge                   // held resource -> resource acquired directly under it
+	oCalls    []lsOCall                  // calls made while resources are held
+	anchorVar map[string]bool
+	onceFn    map[string]string
+	onceFnN   map[string]int
+	nQuiet    int
+	fieldIDs  map[string]bool
+}
+
+func (s *lsState) isField(id string) bool {
+	if s.fieldIDs == nil {
+		s.fieldIDs = map[string]bool{}
+		for o, n := range s.regObj {
+			if _, ok := s.fieldOf[o]; ok {
+				s.fieldIDs[n] = true
+			}
+		}
+	}
+	return s.fieldIDs[id]
 }
 
 // lsFn: what one function does to locks ON THE GOROUTINE THAT CALLS IT: the locks it acquires
@@ -216,35 +254,53 @@ func (s *lsState) load() {
 		pk.names = append(pk.names, relf)
 		return nil
 	})
-	imp := &lsFakeImporter{m: map[string]*types.Package{}}
-	for _, pk := range s.pkgs {
-		// a directory may hold several package clauses (e.g. external test helpers): keep the majority name
-		cnt := map[string]int{}
-		for _, f := range pk.files {
-			cnt[f.Name.Name]++
-		}
-		best := ""
-		for n, c := range cnt {
-			if best == "" || c > cnt[best] || (c == cnt[best] && n < best) {
-				best = n
-			}
-		}
-		var fs []*ast.File
-		var ns []string
-		for i, f := range pk.files {
-			if f.Name.Name == best {
-				fs = append(fs, f)
-				ns = append(ns, pk.names[i])
-			}
-		}
-		pk.files, pk.names = fs, ns
-		pk.info = &types.Info{
-			Uses: map[*ast.Ident]types.Object{}, Defs: map[*ast.Ident]types.Object{},
-			Selections: map[*ast.SelectorExpr]*types.Selection{}, Types: map[ast.Expr]types.TypeAndValue{},
-		}
-		cfg := types.Config{Importer: imp, Error: func(error) {}, FakeImportC: true, DisableUnusedImportCheck: true}
-		pk.tpkg, _ = cfg.Check("seata.apache.org/seata-go/"+pk.dir, s.fset, pk.files, pk.info)
+	imp := &lsFakeImporter{m: map[string]*types.Package{}, s: s}
+	s.byT = map[*types.Package]*lsPkg{}
+	var dirs []string
+	for d := range s.pkgs {
+		dirs = append(dirs, d)
 	}
+	sort.Strings(dirs)
+	for _, d := range dirs {
+		s.checkPkg(imp, s.pkgs[d])
+	}
+}
+
+func (s *lsState) checkPkg(imp *lsFakeImporter, pk *lsPkg) *types.Package {
+	if pk.tpkg != nil || pk.busy {
+		return pk.tpkg
+	}
+	pk.busy = true
+	// a directory may hold several package clauses (e.g. external test helpers): keep the majority name
+	cnt := map[string]int{}
+	for _, f := range pk.files {
+		cnt[f.Name.Name]++
+	}
+	best := ""
+	for n, c := range cnt {
+		if best == "" || c > cnt[best] || (c == cnt[best] && n < best) {
+			best = n
+		}
+	}
+	var fs []*ast.File
+	var ns []string
+	for i, f := range pk.files {
+		if f.Name.Name == best {
+			fs = append(fs, f)
+			ns = append(ns, pk.names[i])
+		}
+	}
+	pk.files, pk.names = fs, ns
+	pk.info = &types.Info{
+		Uses: map[*ast.Ident]types.Object{}, Defs: map[*ast.Ident]types.Object{},
+		Selections: map[*ast.SelectorExpr]*types.Selection{}, Types: map[ast.Expr]types.TypeAndValue{},
+	}
+	cfg := types.Config{Importer: imp, Error: func(error) {}, FakeImportC: true, DisableUnusedImportCheck: true}
+	pk.tpkg, _ = cfg.Check(lsModPrefix+pk.dir, s.fset, pk.files, pk.info)
+	if pk.tpkg != nil {
+		s.byT[pk.tpkg] = pk
+	}
+	return pk.tpkg
 }
 
 func (s *lsState) funcID(dir string, fd *ast.FuncDecl) string {
@@ -266,6 +322,11 @@ func lsFuncName(fd *ast.FuncDecl) string {
 func (s *lsState) objFuncID(dir string, o types.Object) string {
 	fn, ok := o.(*types.Func)
 	if !ok {
+		return ""
+	}
+	if opk := s.byT[o.Pkg()]; opk != nil {
+		dir = opk.dir
+	} else {
 		return ""
 	}
 	sig, _ := fn.Type().(*types.Signature)
@@ -367,7 +428,7 @@ func (s *lsState) refsIn(pk *lsPkg, from string, n ast.Node) {
 					}
 				}
 				if o := pk.info.Uses[v.Sel]; o != nil {
-					if id := s.objFuncID(pk.dir, o); id != "" && o.Pkg() == pk.tpkg {
+					if id := s.objFuncID(pk.dir, o); id != "" {
 						s.refs[id] = append(s.refs[id], lsRef{from, callFun[v] && !inAsync})
 					}
 				}
@@ -457,7 +518,7 @@ func lsTypeText(fset *token.FileSet, e ast.Expr) string { return printNode(fset,
 
 func lsSyncValue(t string) bool {
 	switch t {
-	case "sync.Map", "sync.Once", "sync.Mutex", "sync.RWMutex", "sync.WaitGroup",
+	case "sync.Map", "sync.Once", "sync.Mutex", "sync.RWMutex", "sync.WaitGroup", "sync.Pool",
 		"atomic.Int32", "atomic.Int64", "atomic.Uint32", "atomic.Uint64", "atomic.Bool", "atomic.Value":
 		return true
 	}
@@ -468,6 +529,7 @@ func (s *lsState) collectRegistries() {
 	s.regObj = map[types.Object]string{}
 	s.regType = map[types.Object]string{}
 	s.fieldOf = map[types.Object]string{}
+	s.anchorVar = map[string]bool{}
 	anchor := map[string]bool{}
 	for _, a := range lsAnchors {
 		anchor[a] = true
@@ -499,22 +561,27 @@ func (s *lsState) collectRegistries() {
 							if v.Type != nil {
 								tt = lsTypeText(s.fset, v.Type)
 							} else if k < len(v.Values) {
-								tt = lsTypeText(s.fset, v.Values[k])
-								// `&sync.Once{}` / `sync.Map{}` / `map[..]..{}`: keep the literal's type
-								tt = strings.TrimSuffix(tt, "{}")
-								if strings.HasPrefix(tt, "&") {
-									tt = "*" + tt[1:]
+								switch lv := v.Values[k].(type) {
+								case *ast.CompositeLit: // `sync.Map{}` / `sync.Pool{New: ...}` / `map[..]..{}`: the literal's type
+									tt = lsTypeText(s.fset, lv.Type)
+								case *ast.UnaryExpr:
+									if cl, ok := lv.X.(*ast.CompositeLit); ok && lv.Op == token.AND { // `&sync.Once{}`
+										tt = "*" + lsTypeText(s.fset, cl.Type)
+									} else {
+										tt = lsTypeText(s.fset, lv)
+									}
+								default:
+									tt = lsTypeText(s.fset, lv)
 								}
 							}
 							s.regType[o] = tt
+							// EVERY package-level variable of the client is a shared object; the ones declared
+							// in the anchor files of the property are always listed, the others only when some
+							// function that is not init-only writes them (or what they point to)
+							id := lsShort(pk.dir) + "." + nm.Name
+							s.regObj[o] = id
 							if isAnchor {
-								id := lsShort(pk.dir) + "." + nm.Name
-								s.regObj[o] = id
-								if ast.IsExported(nm.Name) {
-									s.rows = append(s.rows, lsRow{v: id, file: pk.names[i], fn: "<decl>",
-										line: s.fset.Position(nm.Pos()).Line,
-										unknown: "exported registry variable " + nm.Name + " (accesses from other packages are not listed)"})
-								}
+								s.anchorVar[id] = true
 							}
 						}
 					case *ast.TypeSpec:
@@ -575,6 +642,61 @@ type lsWalker struct {
 	async bool
 	pend  []lsRow // Unknown rows about locks, kept only if the function touches a registry
 	recv  string  // name of the method receiver ("" for a plain function)
+	conns map[string]bool // local variables holding a pooled connection
+	alias map[types.Object]lsAlias // local variables that share the backing store of a registry slice/map
+}
+
+type lsAlias struct{ id, base string }
+
+type lsEdge struct {
+	from, to, fn string
+	line         int
+}
+
+type lsOCall struct {
+	held   []string
+	callee string
+	fn     string
+	line   int
+}
+
+const lsPool = "pool:sql.DB"
+
+func lsSet(m map[string]map[string]bool, k string) map[string]bool {
+	if m[k] == nil {
+		m[k] = map[string]bool{}
+	}
+	return m[k]
+}
+
+// orderHeld: the resources in `held` that take part in the wait-for graph (a Once that has
+// merely completed is not held)
+func orderHeld(held lsHeld) []string {
+	var out []string
+	for _, g := range held {
+		if strings.HasPrefix(g.name, "once:") && !g.excl {
+			continue
+		}
+		out = append(out, g.name)
+	}
+	return out
+}
+
+// takes: resource r is acquired here, directly, with `held` held
+func (w *lsWalker) takes(pos token.Pos, r string, held lsHeld) {
+	me := lsShort(w.pk.dir) + "." + w.fn
+	if !w.async {
+		lsSet(w.s.acqDirect, me)[r] = true
+	}
+	for _, h := range orderHeld(held) {
+		w.s.oEdges = append(w.s.oEdges, lsEdge{h, r, me, w.s.fset.Position(pos).Line})
+	}
+}
+
+// isPoolAcquire: X.Conn(arg) - a pooled connection is taken from a *sql.DB
+func lsIsPoolAcquire(c *ast.CallExpr) bool {
+	se, ok := c.Fun.(*ast.SelectorExpr)
+	return ok && se.Sel.Name == "Conn" && len(c.Args) == 1
 }
 
 type lsHeld []lsGuard
@@ -730,13 +852,22 @@ func (w *lsWalker) stmt(st ast.Stmt, held lsHeld) (lsHeld, bool) {
 				w.acquire(c.Pos(), name, "", held)
 				se := c.Fun.(*ast.SelectorExpr)
 				w.expr(se.X, held, true)
-				lit := c.Args[0].(*ast.FuncLit)
+				lit, isLit := c.Args[0].(*ast.FuncLit)
+				if !isLit {
+					// Do(f): f is walked as a declaration, under the Once when this is its only use
+					return held.add(lsGuard{name, false, ""}), false
+				}
 				w.block(lit.Body.List, held.add(lsGuard{name, true, ""}))
 				return held.add(lsGuard{name, false, ""}), false
 			}
 			if id, ok := c.Fun.(*ast.Ident); ok && id.Name == "panic" {
 				w.expr(v.X, held, false)
 				return held, true
+			}
+			if se, ok := c.Fun.(*ast.SelectorExpr); ok && se.Sel.Name == "Close" && len(c.Args) == 0 {
+				if id, ok := se.X.(*ast.Ident); ok && w.conns[id.Name] {
+					return held.del(lsPool, ""), false // the connection goes back to its pool
+				}
 			}
 		}
 		w.expr(v.X, held, false)
@@ -747,6 +878,35 @@ func (w *lsWalker) stmt(st ast.Stmt, held lsHeld) (lsHeld, bool) {
 		}
 		for _, l := range v.Lhs {
 			w.lhs(l, held)
+		}
+		if len(v.Rhs) == 1 && len(v.Lhs) == 2 {
+			if c, ok := v.Rhs[0].(*ast.CallExpr); ok && lsIsPoolAcquire(c) {
+				if id, ok := v.Lhs[0].(*ast.Ident); ok {
+					w.takes(c.Pos(), lsPool, held)
+					w.conns[id.Name] = true
+					return held.add(lsGuard{lsPool, true, ""}), false
+				}
+			}
+		}
+		if len(v.Lhs) == len(v.Rhs) {
+			for i := range v.Lhs {
+				id, ok := v.Lhs[i].(*ast.Ident)
+				if !ok {
+					continue
+				}
+				lo := w.pk.info.Defs[id]
+				if lo == nil {
+					lo = w.pk.info.Uses[id]
+				}
+				if lo == nil || lo.Parent() == nil || lo.Parent() == lo.Pkg().Scope() {
+					continue
+				}
+				if a, ok := w.aliasOf(v.Rhs[i]); ok {
+					w.alias[lo] = a
+				} else {
+					delete(w.alias, lo)
+				}
+			}
 		}
 		return held, false
 	case *ast.IncDecStmt:
@@ -860,6 +1020,7 @@ func (w *lsWalker) stmt(st ast.Stmt, held lsHeld) (lsHeld, bool) {
 // package-level locks are attributed to it.  Taking a lock that is already held lexically is
 // recorded as a call, under that lock, of a synthetic function that acquires it.
 func (w *lsWalker) acquire(pos token.Pos, name, base string, held lsHeld) {
+	w.takes(pos, name, held)
 	if w.async {
 		return
 	}
@@ -882,17 +1043,18 @@ func (w *lsWalker) acquire(pos token.Pos, name, base string, held lsHeld) {
 func (w *lsWalker) calleeOf(c *ast.CallExpr) (id, recvText string, ok bool) {
 	switch f := c.Fun.(type) {
 	case *ast.Ident:
-		if o, isf := w.pk.info.Uses[f].(*types.Func); isf && o.Pkg() == w.pk.tpkg {
+		if o, isf := w.pk.info.Uses[f].(*types.Func); isf {
 			if fid := w.s.objFuncID(w.pk.dir, o); fid != "" {
 				return lsShort(fid), "", true
 			}
 		}
 	case *ast.SelectorExpr:
-		if o, isf := w.pk.info.Uses[f.Sel].(*types.Func); isf && o.Pkg() == w.pk.tpkg {
-			if sig, _ := o.Type().(*types.Signature); sig != nil && sig.Recv() != nil {
-				if fid := w.s.objFuncID(w.pk.dir, o); fid != "" {
+		if o, isf := w.pk.info.Uses[f.Sel].(*types.Func); isf {
+			if fid := w.s.objFuncID(w.pk.dir, o); fid != "" {
+				if sig, _ := o.Type().(*types.Signature); sig != nil && sig.Recv() != nil {
 					return lsShort(fid), printNode(w.s.fset, f.X), true
 				}
+				return lsShort(fid), "", true // function of another package of the repository
 			}
 		}
 	}
@@ -913,8 +1075,12 @@ func (w *lsWalker) noteCall(c *ast.CallExpr, held lsHeld) {
 	if rt == "" || rt == w.recv {
 		w.s.fnRow(me).calls[callee] = true
 	}
+	lsSet(w.s.callsAll, me)[callee] = true
+	if oh := orderHeld(held); len(oh) > 0 {
+		w.s.oCalls = append(w.s.oCalls, lsOCall{oh, callee, me, w.s.fset.Position(c.Pos()).Line})
+	}
 	for _, g := range held {
-		if strings.HasPrefix(g.name, "once:") && !g.excl {
+		if g.name == lsPool || (strings.HasPrefix(g.name, "once:") && !g.excl) {
 			continue
 		}
 		if g.base == "" || (rt != "" && g.base == rt) {
@@ -945,13 +1111,32 @@ func (w *lsWalker) clauses(b *ast.BlockStmt, held lsHeld) lsHeld {
 	return out
 }
 
+// onceFuncArg: X.Do(f) with f a function of this package: f's body runs inside the Once
+func (w *lsWalker) onceFuncArg(c *ast.CallExpr) (string, bool) {
+	if len(c.Args) != 1 {
+		return "", false
+	}
+	id, ok := c.Args[0].(*ast.Ident)
+	if !ok {
+		return "", false
+	}
+	if o, isf := w.pk.info.Uses[id].(*types.Func); isf && o.Pkg() == w.pk.tpkg {
+		if fid := w.s.objFuncID(w.pk.dir, o); fid != "" {
+			return fid, true
+		}
+	}
+	return "", false
+}
+
 func (w *lsWalker) onceDo(c *ast.CallExpr) (string, bool) {
 	se, ok := c.Fun.(*ast.SelectorExpr)
 	if !ok || se.Sel.Name != "Do" || len(c.Args) != 1 {
 		return "", false
 	}
 	if _, ok := c.Args[0].(*ast.FuncLit); !ok {
-		return "", false
+		if _, ok := w.onceFuncArg(c); !ok {
+			return "", false
+		}
 	}
 	var o types.Object
 	switch x := se.X.(type) {
@@ -992,6 +1177,15 @@ func (w *lsWalker) regOf(e ast.Expr) (id string, o types.Object, base string) {
 				return id, sel.Obj(), printNode(w.s.fset, v.X)
 			}
 		}
+		if x, ok := v.X.(*ast.Ident); ok {
+			if _, isPkg := w.pk.info.Uses[x].(*types.PkgName); isPkg {
+				if ob := w.pk.info.Uses[v.Sel]; ob != nil {
+					if id, ok := w.s.regObj[ob]; ok {
+						return id, ob, ""
+					}
+				}
+			}
+		}
 	}
 	return "", nil, ""
 }
@@ -1006,6 +1200,9 @@ func lsOwner(name string) string {
 func (w *lsWalker) record(pos token.Pos, id string, base string, write, synced bool, held lsHeld) {
 	var gs []lsGuard
 	for _, g := range held {
+		if g.name == lsPool {
+			continue // holding a pooled connection orders nothing
+		}
 		// a field lock guards the fields of the SAME object only (receiver texts must agree);
 		// fields of another struct type (cache entries owned by the locked container) accept it
 		if g.base == "" || g.base == base || lsOwner(g.name) != lsOwner(id) {
@@ -1016,6 +1213,88 @@ func (w *lsWalker) record(pos token.Pos, id string, base string, write, synced b
 	w.nAcc++
 	w.rows = append(w.rows, lsRow{v: id, file: w.file, fn: w.fn, fnID: w.fnID, line: w.s.fset.Position(pos).Line,
 		write: write, synced: synced, guards: gs, async: w.async})
+}
+
+func lsSliceOrMap(o types.Object) bool {
+	if o == nil || o.Type() == nil {
+		return false
+	}
+	switch o.Type().Underlying().(type) {
+	case *types.Slice, *types.Map:
+		return true
+	}
+	return false
+}
+
+// aliasOf: does evaluating e yield a value that shares the backing store of a registry slice or
+// map?  The registry itself (or an element of it that is a slice/map), a re-slice of it, a local
+// alias, or append(alias, ...) whose result may still live in the shared array.
+func (w *lsWalker) aliasOf(e ast.Expr) (lsAlias, bool) {
+	switch v := e.(type) {
+	case *ast.ParenExpr:
+		return w.aliasOf(v.X)
+	case *ast.Ident:
+		if o := w.pk.info.Uses[v]; o != nil {
+			if a, ok := w.alias[o]; ok {
+				return a, true
+			}
+		}
+		if id, o, base := w.regOf(v); id != "" && lsSliceOrMap(o) {
+			return lsAlias{id, base}, true
+		}
+	case *ast.SelectorExpr:
+		if id, o, base := w.regOf(v); id != "" && lsSliceOrMap(o) {
+			return lsAlias{id, base}, true
+		}
+	case *ast.SliceExpr:
+		return w.aliasOf(v.X)
+	case *ast.IndexExpr:
+		// an element of a registry map/slice that is itself a slice or a map
+		if tv, ok := w.pk.info.Types[e]; ok && tv.Type != nil {
+			switch tv.Type.Underlying().(type) {
+			case *types.Slice, *types.Map:
+				return w.aliasOf(v.X)
+			}
+		}
+	case *ast.CallExpr:
+		if id, ok := v.Fun.(*ast.Ident); ok && id.Name == "append" && len(v.Args) > 0 {
+			if w.pk.info.Uses[id] == nil || w.pk.info.Uses[id].Pkg() == nil {
+				return w.aliasOf(v.Args[0])
+			}
+		}
+	}
+	return lsAlias{}, false
+}
+
+// rootVar: the package-level variable at the root of a selector / index / dereference chain
+func (w *lsWalker) rootVar(e ast.Expr) (string, bool) {
+	for {
+		switch v := e.(type) {
+		case *ast.ParenExpr:
+			e = v.X
+		case *ast.StarExpr:
+			e = v.X
+		case *ast.IndexExpr:
+			e = v.X
+		case *ast.SelectorExpr:
+			if id, o, base := w.regOf(v); id != "" {
+				if _, isField := w.s.fieldOf[o]; !isField && base == "" {
+					return id, true
+				}
+				return "", false
+			}
+			e = v.X
+		case *ast.Ident:
+			if id, o, base := w.regOf(v); id != "" {
+				if _, isField := w.s.fieldOf[o]; !isField && base == "" {
+					return id, true
+				}
+			}
+			return "", false
+		default:
+			return "", false
+		}
+	}
 }
 
 // lhs: e is assigned to
@@ -1032,6 +1311,12 @@ func (w *lsWalker) lhs(e ast.Expr, held lsHeld) {
 				w.expr(se.X, held, false)
 			}
 			return
+		}
+		if a, ok := w.aliasOf(v.X); ok {
+			// an element is stored through a local alias of the registry's backing store
+			w.record(v.X.Pos(), a.id, a.base, true, false, held)
+		} else if id, ok := w.rootVar(v.X); ok {
+			w.record(v.X.Pos(), id, "", true, false, held) // what the package-level variable points to is mutated
 		}
 		w.expr(v.X, held, false)
 		return
@@ -1050,6 +1335,9 @@ func (w *lsWalker) lhs(e ast.Expr, held lsHeld) {
 			return
 		}
 		if se, ok := e.(*ast.SelectorExpr); ok {
+			if id, ok := w.rootVar(se.X); ok {
+				w.record(se.X.Pos(), id, "", true, false, held) // a field of what the package-level variable holds / points to
+			}
 			w.expr(se.X, held, false)
 		}
 		return
@@ -1066,6 +1354,16 @@ var lsAtomicRead = map[string]bool{"LoadInt32": true, "LoadInt64": true, "LoadUi
 func (w *lsWalker) call(c *ast.CallExpr, held lsHeld, isGo bool) {
 	if !isGo {
 		w.noteCall(c, held)
+	}
+	// append(x, ...) where x shares the backing store of a registry slice writes into that
+	// store whenever it has spare capacity: a WRITE to the registry, whatever the result is
+	// assigned to (a copy made first - make + append(copy, x...) - is not an alias)
+	if id, ok := c.Fun.(*ast.Ident); ok && id.Name == "append" && len(c.Args) > 1 {
+		if w.pk.info.Uses[id] == nil || w.pk.info.Uses[id].Pkg() == nil {
+			if a, ok := w.aliasOf(c.Args[0]); ok {
+				w.record(c.Args[0].Pos(), a.id, a.base, true, false, held)
+			}
+		}
 	}
 	// builtins that write their first argument
 	if id, ok := c.Fun.(*ast.Ident); ok && (id.Name == "delete" || id.Name == "copy" || id.Name == "clear") && len(c.Args) > 0 {
@@ -1203,8 +1501,9 @@ func (w *lsWalker) expr(e ast.Expr, held lsHeld, synced bool) {
 				if lsSyncValue(w.s.regType[o]) {
 					w.record(v.X.Pos(), id, base, true, true, held)
 				} else {
-					// the address of a plain registry escapes: counted as an unguarded write
-					w.record(v.X.Pos(), id, base, true, false, nil)
+					// the address of a plain registry is taken: a read here; what is done through the
+					// pointer afterwards is not followed (stated limit)
+					w.record(v.X.Pos(), id, base, false, false, held)
 				}
 				if s2, ok := v.X.(*ast.SelectorExpr); ok {
 					w.expr(s2.X, held, false)
@@ -1292,8 +1591,27 @@ func xlateLockset(repo, out string) {
 			s.rows = append(s.rows, lsRow{v: "?", file: a, fn: "<file>", unknown: "anchor file missing"})
 		}
 	}
+	// functions handed to Once.Do by name
+	s.onceFn, s.onceFnN = map[string]string{}, map[string]int{}
+	s.acqDirect, s.callsAll = map[string]map[string]bool{}, map[string]map[string]bool{}
+	for _, pk := range s.pkgs {
+		for i, f := range pk.files {
+			w := &lsWalker{s: s, pk: pk, file: pk.names[i]}
+			ast.Inspect(f, func(n ast.Node) bool {
+				if c, ok := n.(*ast.CallExpr); ok {
+					if fid, ok := w.onceFuncArg(c); ok {
+						if name, ok := w.onceDo(c); ok {
+							s.onceFn[fid] = name
+							s.onceFnN[fid]++
+						}
+					}
+				}
+				return true
+			})
+		}
+	}
 	var dl []string
-	for d := range dirs {
+	for d := range s.pkgs { // every package of the client is walked
 		dl = append(dl, d)
 	}
 	sort.Strings(dl)
@@ -1308,12 +1626,16 @@ func xlateLockset(repo, out string) {
 				if !ok || fd.Body == nil {
 					continue
 				}
-				w := &lsWalker{s: s, pk: pk, file: pk.names[i], fn: lsFuncName(fd), fnID: s.funcID(pk.dir, fd)}
+				w := &lsWalker{s: s, pk: pk, file: pk.names[i], fn: lsFuncName(fd), fnID: s.funcID(pk.dir, fd), alias: map[types.Object]lsAlias{}, conns: map[string]bool{}}
 				if fd.Recv != nil && len(fd.Recv.List) > 0 && len(fd.Recv.List[0].Names) > 0 {
 					w.recv = fd.Recv.List[0].Names[0].Name
 				}
 				s.fnRow(lsShort(pk.dir) + "." + w.fn)
-				w.block(fd.Body.List, nil)
+				var held0 lsHeld
+				if on, ok := s.onceFn[w.fnID]; ok && len(s.refs[w.fnID]) == s.onceFnN[w.fnID] {
+					held0 = held0.add(lsGuard{on, true, ""})
+				}
+				w.block(fd.Body.List, held0)
 				s.rows = append(s.rows, w.rows...)
 				if w.nAcc > 0 {
 					s.rows = append(s.rows, w.pend...)
@@ -1321,6 +1643,27 @@ func xlateLockset(repo, out string) {
 			}
 		}
 	}
+	// variables outside the anchor files are listed only when some function that is not
+	// init-only writes them: without such a write no pair can conflict
+	loud := map[string]bool{}
+	for _, r := range s.rows {
+		if r.unknown != "" || s.anchorVar[r.v] || s.isField(r.v) {
+			loud[r.v] = true
+		} else if r.write && !(s.initFn[r.fnID] && !r.async) {
+			loud[r.v] = true
+		}
+	}
+	quiet := map[string]bool{}
+	var kept []lsRow
+	for _, r := range s.rows {
+		if loud[r.v] || r.v == "?" {
+			kept = append(kept, r)
+		} else {
+			quiet[r.v] = true
+		}
+	}
+	s.rows = kept
+	s.nQuiet = len(quiet)
 	sort.SliceStable(s.rows, func(i, j int) bool {
 		a, b := s.rows[i], s.rows[j]
 		if a.v != b.v {
@@ -1337,7 +1680,7 @@ func xlateLockset(repo, out string) {
 	var b strings.Builder
 	b.WriteString("(* GENERATED by tools/xlate lockset from the repository working tree - do not edit.\n")
 	b.WriteString("   One row per access site of a shared registry of the client (C20). *)\n")
-	b.WriteString("From Coq Require Import String List NArith.\nFrom SeataV Require Import Conc.LockSet Conc.Reent.\nImport ListNotations.\nOpen Scope string_scope.\n\n")
+	b.WriteString("From Coq Require Import String List NArith.\nFrom SeataV Require Import Conc.LockSet Conc.Reent Conc.Order.\nImport ListNotations.\nOpen Scope string_scope.\n\n")
 	b.WriteString("Definition ls_table : list access := [\n")
 	for i, r := range s.rows {
 		sep := ";"
@@ -1362,6 +1705,7 @@ func xlateLockset(repo, out string) {
 		fmt.Fprintf(&b, "  mkAcc %s %s %s %d%%N %s %s %s %s%s\n", coqStr(r.v), coqStr(r.file), coqStr(r.fn), r.line, kind, mode, lsGuardsCoq(r.guards), ini, sep)
 	}
 	b.WriteString("].\n\n")
+	fmt.Fprintf(&b, "(* package-level variables of the client that no function outside init writes (rows omitted) *)\nDefinition ls_quiet_vars : N := %d%%N.\n\n", s.nQuiet)
 	// the init-only functions that matter (those holding at least one row), for the reader
 	seen := map[string]bool{}
 	var il []string
@@ -1472,9 +1816,319 @@ func xlateLockset(repo, out string) {
 		fmt.Fprintf(&b, "  mkHc %s %d%%N %s %s %s%s\n", coqStr(h.fn), h.line, coqStr(h.lock), m, coqStr(h.callee), sep)
 	}
 	b.WriteString("].\n")
+	s.emitOrder(&b)
+	s.emitPools(&b)
 	if err := os.WriteFile(out, []byte(b.String()), 0o644); err != nil {
 		fatal(err)
 	}
+}
+
+// emitOrder: the wait-for graph.  Nodes are locks (by declaring type and field, or package-level
+// name; `once:` for a Once being run) and the connection pool of a *sql.DB (one node: pools are
+// not told apart).  An edge a -> b means: some goroutine acquires b while it holds a - directly,
+// or by calling (any depth, same goroutine, calls that resolve statically: no interface
+// dispatch) a function that acquires b.  A type-level self edge on a lock is left to the
+// re-entrancy rule (same object) and dropped here; pool -> pool is kept.  The ranking is a
+// certificate (topological order); nodes on a cycle keep rank 0, which the checker rejects.
+func (s *lsState) emitOrder(b *strings.Builder) {
+	acq := map[string]map[string]bool{}
+	var fns []string
+	seen := map[string]bool{}
+	add := func(n string) {
+		if !seen[n] {
+			seen[n] = true
+			fns = append(fns, n)
+		}
+	}
+	for f, m := range s.acqDirect {
+		add(f)
+		for r := range m {
+			lsSet(acq, f)[r] = true
+		}
+	}
+	for f, m := range s.callsAll {
+		add(f)
+		for g := range m {
+			add(g)
+		}
+	}
+	sort.Strings(fns)
+	for changed := true; changed; {
+		changed = false
+		for _, f := range fns {
+			for g := range s.callsAll[f] {
+				for r := range acq[g] {
+					if !lsSet(acq, f)[r] {
+						acq[f][r] = true
+						changed = true
+					}
+				}
+			}
+		}
+	}
+	edges := append([]lsEdge{}, s.oEdges...)
+	for _, c := range s.oCalls {
+		var rs []string
+		for r := range acq[c.callee] {
+			rs = append(rs, r)
+		}
+		sort.Strings(rs)
+		for _, h := range c.held {
+			for _, r := range rs {
+				edges = append(edges, lsEdge{h, r, c.fn + " -> " + c.callee, c.line})
+			}
+		}
+	}
+	sort.SliceStable(edges, func(i, j int) bool {
+		if edges[i].from != edges[j].from {
+			return edges[i].from < edges[j].from
+		}
+		if edges[i].to != edges[j].to {
+			return edges[i].to < edges[j].to
+		}
+		if edges[i].fn != edges[j].fn {
+			return edges[i].fn < edges[j].fn
+		}
+		return edges[i].line < edges[j].line
+	})
+	var uniq []lsEdge
+	nodes := map[string]bool{}
+	for _, e := range edges {
+		if e.from == e.to && e.from != lsPool {
+			continue
+		}
+		if n := len(uniq); n > 0 && uniq[n-1].from == e.from && uniq[n-1].to == e.to {
+			continue
+		}
+		uniq = append(uniq, e)
+		nodes[e.from], nodes[e.to] = true, true
+	}
+	// Kahn
+	indeg := map[string]int{}
+	for _, e := range uniq {
+		indeg[e.to]++
+	}
+	rank := map[string]int{}
+	var names []string
+	for n := range nodes {
+		names = append(names, n)
+	}
+	sort.Strings(names)
+	done := map[string]bool{}
+	for r := 1; ; r++ {
+		var layer []string
+		for _, n := range names {
+			if !done[n] && indeg[n] == 0 {
+				layer = append(layer, n)
+			}
+		}
+		if len(layer) == 0 {
+			break
+		}
+		for _, n := range layer {
+			done[n] = true
+			rank[n] = r
+			for _, e := range uniq {
+				if e.from == n {
+					indeg[e.to]--
+				}
+			}
+		}
+	}
+	b.WriteString("\n(* wait-for graph: held resource, acquired resource, where (function [-> callee]), line *)\n")
+	b.WriteString("Definition ls_order_edges : list (string * string * string * N) := [\n")
+	for i, e := range uniq {
+		sep := ";"
+		if i == len(uniq)-1 {
+			sep = ""
+		}
+		fmt.Fprintf(b, "  (%s, %s, %s, %d%%N)%s\n", coqStr(e.from), coqStr(e.to), coqStr(e.fn), e.line, sep)
+	}
+	b.WriteString("].\n\n(* ranking certificate: every edge must go to a strictly higher rank; 0 = on a cycle *)\n")
+	b.WriteString("Definition ls_order_rank : list (string * N) := [\n")
+	for i, n := range names {
+		sep := ";"
+		if i == len(names)-1 {
+			sep = ""
+		}
+		fmt.Fprintf(b, "  (%s, %d%%N)%s\n", coqStr(n), rank[n], sep)
+	}
+	b.WriteString("].\n")
+}
+
+// emitPools: use of sync.Pool values.  For every function that takes a value from a package-level
+// sync.Pool the events in source order: PGet v (v := P.Get()), PDerive w v (w assigned from an
+// expression that mentions v or something derived from it; error-typed results excepted),
+// PPut v (P.Put(v); a deferred Put counts at the end of the function), PUse w (any other
+// occurrence of a tracked variable).  The Coq side rejects a PUse of a variable that is dead:
+// the value that was put back, or anything derived from it.
+func (s *lsState) emitPools(b *strings.Builder) {
+	type trace struct {
+		fn, pool string
+		ev       []string
+	}
+	var traces []trace
+	var dirs []string
+	for d := range s.pkgs {
+		dirs = append(dirs, d)
+	}
+	sort.Strings(dirs)
+	for _, d := range dirs {
+		pk := s.pkgs[d]
+		isPool := func(e ast.Expr) (string, bool) {
+			var o types.Object
+			switch x := e.(type) {
+			case *ast.Ident:
+				o = pk.info.Uses[x]
+			case *ast.SelectorExpr:
+				o = pk.info.Uses[x.Sel]
+			}
+			if o == nil {
+				return "", false
+			}
+			if t := s.regType[o]; t == "sync.Pool" || t == "*sync.Pool" {
+				if id, ok := s.regObj[o]; ok {
+					return id, true
+				}
+				return o.Name(), true
+			}
+			return "", false
+		}
+		poolCall := func(n ast.Node, method string) (string, *ast.CallExpr, bool) {
+			for {
+				switch x := n.(type) {
+				case *ast.TypeAssertExpr:
+					n = x.X
+					continue
+				case *ast.ParenExpr:
+					n = x.X
+					continue
+				}
+				break
+			}
+			c, ok := n.(*ast.CallExpr)
+			if !ok {
+				return "", nil, false
+			}
+			se, ok := c.Fun.(*ast.SelectorExpr)
+			if !ok || se.Sel.Name != method {
+				return "", nil, false
+			}
+			if id, ok := isPool(se.X); ok {
+				return id, c, true
+			}
+			return "", nil, false
+		}
+		for _, f := range pk.files {
+			for _, decl := range f.Decls {
+				fd, ok := decl.(*ast.FuncDecl)
+				if !ok || fd.Body == nil {
+					continue
+				}
+				tr := trace{fn: lsShort(d) + "." + lsFuncName(fd)}
+				tracked := map[string]bool{}
+				var deferred []string
+				isErr := func(id *ast.Ident) bool {
+					if o := pk.info.Defs[id]; o != nil && o.Type() != nil {
+						return o.Type().String() == "error"
+					}
+					if o := pk.info.Uses[id]; o != nil && o.Type() != nil {
+						return o.Type().String() == "error"
+					}
+					return false
+				}
+				var uses func(n ast.Node)
+				uses = func(n ast.Node) {
+					if n == nil {
+						return
+					}
+					ast.Inspect(n, func(m ast.Node) bool {
+						switch x := m.(type) {
+						case *ast.DeferStmt:
+							if pool, c, ok := poolCall(x.Call, "Put"); ok && len(c.Args) == 1 {
+								if id, ok := c.Args[0].(*ast.Ident); ok {
+									tr.pool = pool
+									deferred = append(deferred, id.Name)
+									return false
+								}
+							}
+						case *ast.AssignStmt:
+							for _, r := range x.Rhs {
+								uses(r)
+							}
+							if len(x.Rhs) == 1 {
+								if pool, _, ok := poolCall(x.Rhs[0], "Get"); ok {
+									if id, ok := x.Lhs[0].(*ast.Ident); ok && id.Name != "_" {
+										tr.pool = pool
+										tracked[id.Name] = true
+										tr.ev = append(tr.ev, "PGet "+coqStr(id.Name))
+										return false
+									}
+								}
+							}
+							src := ""
+							for _, r := range x.Rhs {
+								ast.Inspect(r, func(k ast.Node) bool {
+									if id, ok := k.(*ast.Ident); ok && tracked[id.Name] && src == "" {
+										src = id.Name
+									}
+									return true
+								})
+							}
+							for _, l := range x.Lhs {
+								id, ok := l.(*ast.Ident)
+								if !ok {
+									uses(l)
+									continue
+								}
+								if id.Name == "_" {
+									continue
+								}
+								if src != "" && !isErr(id) {
+									tracked[id.Name] = true
+									tr.ev = append(tr.ev, "PDerive "+coqStr(id.Name)+" "+coqStr(src))
+								} else if tracked[id.Name] {
+									delete(tracked, id.Name) // overwritten with something unrelated
+									tr.ev = append(tr.ev, "PGet "+coqStr(id.Name))
+								}
+							}
+							return false
+						case *ast.CallExpr:
+							if pool, c, ok := poolCall(x, "Put"); ok && len(c.Args) == 1 {
+								if id, ok := c.Args[0].(*ast.Ident); ok {
+									tr.pool = pool
+									tr.ev = append(tr.ev, "PPut "+coqStr(id.Name))
+									return false
+								}
+							}
+						case *ast.Ident:
+							if tracked[x.Name] {
+								tr.ev = append(tr.ev, "PUse "+coqStr(x.Name))
+							}
+						}
+						return true
+					})
+				}
+				uses(fd.Body)
+				for _, v := range deferred {
+					tr.ev = append(tr.ev, "PPut "+coqStr(v))
+				}
+				if tr.pool != "" {
+					traces = append(traces, tr)
+				}
+			}
+		}
+	}
+	b.WriteString("\n(* sync.Pool values: function, pool, events in source order *)\n")
+	b.WriteString("Definition ls_pool_traces : list (string * string * list pev) := [\n")
+	for i, t := range traces {
+		sep := ";"
+		if i == len(traces)-1 {
+			sep = ""
+		}
+		fmt.Fprintf(b, "  (%s, %s, [%s])%s\n", coqStr(t.fn), coqStr(t.pool), strings.Join(t.ev, "; "), sep)
+	}
+	b.WriteString("].\n")
 }
 
 // directories whose functions take pooled connections (trusted list)
